@@ -5,7 +5,7 @@ undoes the change and stores the result under /verif/neutral/<id>/. Any alarm is
 import sys, os, subprocess, json, shutil, re, time
 ENV = dict(os.environ, GOFLAGS="-mod=mod", GOPROXY="off", GOSUMDB="off", GOTOOLCHAIN="local")
 def sh(cmd, cwd="/repo", timeout=3000):
-    p = subprocess.run(cmd, shell=True, cwd=cwd, env=ENV, capture_output=True, text=True, timeout=timeout)
+    p = subprocess.run(cmd, shell=True, cwd=cwd, env=ENV, capture_output=True, text=True, errors="replace", timeout=timeout)
     return p.returncode, (p.stdout + p.stderr)
 src, nid = sys.argv[1], sys.argv[2]
 checks = sys.argv[3:] or ["C%02d" % i for i in range(1, 21)]
